@@ -76,7 +76,7 @@ def run(ctx: Ctx) -> int:
     rng = ctx.rng
     cases = [[], [("servo", "loopTop", "sv1", "Servo(9)")], [("lcdI2c", "setupTop", "li1", "LCD(i2c_addr=0, cols=16, rows=2)")],
              [("lcdPar", "setupTop", "lp1", "LCD(rs=12, en=11, d4=5, d5=4, d6=3, d7=2)"), ("lcdI2c", "setupTop", "li2", "LCD(i2c_addr=0x27)")]]
-    cases += [gen(rng) for _ in range(ctx.n(120, 1500))]
+    cases += [gen(rng) for _ in range(ctx.n(240, 1500))]
     srcs = [build(d, rng.random() < 0.5) for d in cases]
     model = ctx.lean.drive(["libs|" + ";".join(f"{k} {pos}" for k, pos, n, c in d) for d in cases])
     compile_jobs, compile_idx = [], []
